@@ -9,7 +9,10 @@ ENTRY = dict(
         "controller that keeps sending on a working transport, no set-up request round in progress) close() under the modelled scheduler "
         "returns within (|writeQ|+1)*ioTimeout with the transport closed and tasks = 0 (producer, consumers, loss handler, reconnect task, set-up, "
         "device, mixer and thermostat tasks); `close_idle`, `close_draining` are its two cases; `subdevices_all_shut` (+ `union_misses_overlapping_mixer`: "
-        "the pre-51898e9 dict merge leaves a mixer task), `devices_shut_when_disconnected` (fa07755). The full statement is kept as `close_full : Prop`; "
+        "the pre-51898e9 dict merge leaves a mixer task), `devices_shut_when_disconnected` (fa07755), `close_during_setup` (device set-up request rounds in "
+        "progress, responsive controller: returns within WRITER_TIMEOUT, tasks = 0 incl. the PhysicalDevice.request tasks), `stuck_read_queue` / "
+        "`stuck_read_witness` (read-queue side of F1: frames left with no consumer, every schedule). `AtRest` = nothing runnable (internal? = none), "
+        "no frame unfinished. The full statement is kept as `close_full : Prop`; "
         "`close_stuck_witness` proves its negation on the two F1 states (`stuck_without_traffic`: no frame-free schedule completes the join; "
         "`stuck_disconnected_forever`: no schedule at all). The harness replays close() at every point of generated histories on the implementation, "
         "compares with the model, and judges termination / leftovers / bound on what the implementation did."),
@@ -21,8 +24,8 @@ ENTRY = dict(
         "no protocol / connection / device / sub-device task left": "theorem (tasks = 0) + correspondence (asyncio.all_tasks() after close)",
         "mixers and thermostats with overlapping indexes": "theorem (subdevices_all_shut) + correspondence",
         "devices shut down when already disconnected": "theorem (devices_shut_when_disconnected) + correspondence",
-        "states in the middle of a device set-up request round": "correspondence only (they queue further requests while close() waits): close() at every point of the three request rounds, with a controller fast enough that close() returns while the round is still running",
-        "states after a loss that caught the frame consumers mid-frame": "correspondence only, statement-level oracle (gated histories): close() must return within the bound when the state drains, nothing left; the F1 tag requires the F1 match (write queue non-empty without producer progress, or read queue non-empty with no consumer while disconnected)",
+        "states in the middle of a device set-up request round": "theorem (close_during_setup: frames arrive before the next retry timer; request tasks are part of `tasks`) + correspondence (close() at every point of the three request rounds, fast / slow / silent controller; request task count compared with the model)",
+        "states after a loss that caught the frame consumers mid-frame": "theorem (stuck_read_queue for the F1 side; AtRest.readIdle excludes them from close_partial) + correspondence (gated histories replayed by the model) + statement-level oracle; the F1 tag requires the F1 match (write queue non-empty without producer progress, or read queue non-empty with no consumer while disconnected)",
     },
     assumptions=COMMON_ASSUME + [
         "close() is called at quiescent points of a history (no library task about to run) and after connect() has returned",
